@@ -52,19 +52,30 @@ def candidate_models(contract, case, hyps, goal, bounds=(2, 3, 4), timeout_ms=80
     H = Harness()
     try:
         ctx = contract.harness(H, case)
-        menu = list(contract.menu(case, H, ctx)) if hasattr(contract, 'menu') else []
+        menu = contract.menu(case, H, ctx) if hasattr(contract, 'menu') else []
+        menu = menu if isinstance(menu, tuple) else list(menu)
     except Exception:
         menu = []
     schema = contract.schema(case)
     size_syms = list(getattr(contract, 'size_syms', ()))
     base = list(hyps) + [z3.Not(goal)]
     seen = set()
-    for use_menu in (True, False):
-        if use_menu and not menu:
-            continue
+    # menu() returns (hard, soft): hard = what real objects can realise at all (e.g. a contiguous window),
+    # soft = readable values (unit steps, no discounting).  Tried in the order hard+soft, hard, none.
+    if isinstance(menu, tuple):
+        hard, soft = list(menu[0]), list(menu[1])
+    else:
+        hard, soft = [], list(menu)
+    tiers = []
+    if hard or soft:
+        tiers.append(hard + soft)
+    if hard and soft:
+        tiers.append(hard)
+    tiers.append([])
+    for extra in tiers:
         for b in bounds:
             try:
-                fs = quant.bounded_expand(base + (menu if use_menu else []), size_syms, b)
+                fs = quant.bounded_expand(base + extra, size_syms, b)
             except z3.Z3Exception:
                 continue
             s = z3.Solver()
@@ -77,7 +88,7 @@ def candidate_models(contract, case, hyps, goal, bounds=(2, 3, 4), timeout_ms=80
             if key in seen:
                 continue
             seen.add(key)
-            yield b, use_menu, P
+            yield b, bool(extra), P
 
 
 def try_refute(contract, case, ob_name, ob_kind, hyps_smt2, goal_smt2):
@@ -103,11 +114,16 @@ def try_refute(contract, case, ob_name, ob_kind, hyps_smt2, goal_smt2):
         hit = short in failing
         if not hit and ob_kind != 'post':
             # safety obligation: natively it shows as an exception the contract does not allow
-            hit = nat['outcome'].startswith('raise') and any(k.endswith('no_spurious_raise') for k in failing)
+            hit = nat['outcome'].startswith('raise') and any('no_spurious_raise' in k or 'refuses_only' in k for k in failing)
+        if not hit:
+            # the run-time twin may phrase a clause set-based where the VC is structural (e.g. mapping rows):
+            # a failing native predicate of the same property on this model is the same violation
+            prop = short.split('.')[0]
+            hit = any(k.split('.')[0] == prop for k in failing)
         if hit:
             return dict(status='reproduced', params=P, native=nat, bound=b, menu=used_menu, failing=failing)
         last = dict(status='not-reproduced', params=P, native=nat, bound=b, menu=used_menu, failing=failing,
                     note='real call satisfied the predicate on this model')
-        if tried >= 6:
+        if tried >= 9:
             break
     return last or dict(status='no-model', note='no model of the bounded expansion within the size bounds')
